@@ -21,6 +21,7 @@ type Event struct {
 	Field  string // store: field name written
 	Elems  []*core.Term // append: the appended elements
 	Val    *core.Term   // store: the value
+	Addr   *core.Term   // store: the address written (index / field term)
 	Callee string       // call: callee name (static, invoke, or dyn)
 	Args   []*core.Term // call: arguments (receiver first)
 	Instr  ssa.Instruction
@@ -43,6 +44,8 @@ type inlineOpts struct {
 	maxDepth int // helpers are opened down to this nesting depth (default 3)
 	// opaque: after looking at the helper's own inlined paths, keep its call opaque all the same
 	opaque func(h *ssa.Function, inner []IPath) bool
+	// openAll: helpers of every package of the module are opened, not only those of pkg
+	openAll bool
 }
 
 func destKind(addr ssa.Value) string {
@@ -90,9 +93,36 @@ func InlinedPaths(p *core.Prog, f *ssa.Function, o inlineOpts) []IPath {
 	}
 	initNonNilGlobals(p)
 	rps, _ := core.ReturnPaths(p, f, 5000)
+	return inlinedOver(p, f, rps, o)
+}
+
+// InlinedPathsTo enumerates the inlined paths of f that end with block target (all of its instructions included): the view a rule
+// needs of an effect inside a loop body, which no acyclic path to a return passes through.
+func InlinedPathsTo(p *core.Prog, f *ssa.Function, target *ssa.BasicBlock, o inlineOpts) []IPath {
+	if o.pkg == nil {
+		o.pkg = core.FuncPkg(f)
+	}
+	if o.maxDepth == 0 {
+		o.maxDepth = 3
+	}
+	initNonNilGlobals(p)
+	paths, _ := core.EnumPaths(f, target, 5000)
+	var rps []core.RetPath
+	for _, pa := range paths {
+		env := core.NewEnv(p, pa)
+		atoms := env.Atoms()
+		if !core.Feasible(atoms) {
+			continue
+		}
+		rps = append(rps, core.RetPath{Path: pa, Env: env, Atoms: atoms})
+	}
+	return inlinedOver(p, f, rps, o)
+}
+
+func inlinedOver(p *core.Prog, f *ssa.Function, rps []core.RetPath, o inlineOpts) []IPath {
 	var out []IPath
 	for _, rp := range rps {
-		if rp.Ret.Block().Comment == "recover" {
+		if rp.Ret != nil && rp.Ret.Block().Comment == "recover" {
 			continue
 		}
 		cur := []IPath{{Atoms: append([]core.Atom{}, rp.Atoms...), Desc: rp.Path.String(), Ret: rp.Ret}}
@@ -156,6 +186,7 @@ func InlinedPaths(p *core.Prog, f *ssa.Function, o inlineOpts) []IPath {
 							}
 						}
 						ev.Kind = "store"
+						ev.Addr = rp.Env.Term(x.Addr)
 						ev.Target = destKind(x.Addr)
 						if fa, ok := x.Addr.(*ssa.FieldAddr); ok {
 							ev.Field = core.FieldName(fa)
@@ -166,6 +197,7 @@ func InlinedPaths(p *core.Prog, f *ssa.Function, o inlineOpts) []IPath {
 						e2 := ev
 						e2.Elems = applySubsAll(ev.Elems, subs[i])
 						e2.Val = applySubs(ev.Val, subs[i])
+						e2.Addr = applySubs(ev.Addr, subs[i])
 						cur[i].Events = append(cur[i].Events, e2)
 					}
 				case *ssa.Call:
@@ -180,11 +212,43 @@ func InlinedPaths(p *core.Prog, f *ssa.Function, o inlineOpts) []IPath {
 							continue
 						}
 					}
-					if _, isB := cc.Value.(*ssa.Builtin); isB {
+					if bi, isB := cc.Value.(*ssa.Builtin); isB {
+						// an append whose result stays in a register (a local slice that is never addressed): no store to hang the event on
+						if bi.Name() == "append" && len(cc.Args) == 2 {
+							stored := false
+							for _, r := range *x.Referrers() {
+								if st, ok := r.(*ssa.Store); ok && st.Val == ssa.Value(x) {
+									stored = true
+								}
+							}
+							if !stored {
+								ev := Event{Kind: "append", Target: "local", Instr: in, Locked: locked > 0}
+								if sl, ok := cc.Args[1].(*ssa.Slice); ok {
+									if arr, ok := sl.X.(*ssa.Alloc); ok {
+										for _, r := range *arr.Referrers() {
+											if ia, ok := r.(*ssa.IndexAddr); ok {
+												for _, r2 := range *ia.Referrers() {
+													if s2, ok := r2.(*ssa.Store); ok && s2.Addr == ssa.Value(ia) {
+														ev.Elems = append(ev.Elems, rp.Env.Term(s2.Val))
+													}
+												}
+											}
+										}
+									}
+								} else {
+									ev.Elems = append(ev.Elems, rp.Env.Term(cc.Args[1]))
+								}
+								for i := range cur {
+									e2 := ev
+									e2.Elems = applySubsAll(ev.Elems, subs[i])
+									cur[i].Events = append(cur[i].Events, e2)
+								}
+							}
+						}
 						continue
 					}
 					h := cc.StaticCallee()
-					open := h != nil && len(h.Blocks) > 0 && core.FuncPkg(h) == o.pkg && (h.Synthetic == "" || strings.HasPrefix(h.Synthetic, "instance of")) && o.depth < o.maxDepth && h != f && (o.stop == nil || !o.stop(h))
+					open := h != nil && len(h.Blocks) > 0 && (core.FuncPkg(h) == o.pkg || o.openAll && core.InModule(h)) && (h.Synthetic == "" || strings.HasPrefix(h.Synthetic, "instance of")) && o.depth < o.maxDepth && h != f && (o.stop == nil || !o.stop(h))
 					if !open {
 						ev := Event{Kind: "call", Callee: core.CalleeName(cc), Instr: in, Locked: locked > 0}
 						if cc.IsInvoke() || ev.Callee == "dyn" {
@@ -200,7 +264,7 @@ func InlinedPaths(p *core.Prog, f *ssa.Function, o inlineOpts) []IPath {
 						}
 						continue
 					}
-					inner := InlinedPaths(p, h, inlineOpts{pkg: o.pkg, depth: o.depth + 1, stop: o.stop, maxDepth: o.maxDepth, opaque: o.opaque})
+					inner := InlinedPaths(p, h, inlineOpts{pkg: o.pkg, depth: o.depth + 1, stop: o.stop, maxDepth: o.maxDepth, opaque: o.opaque, openAll: o.openAll})
 					if o.opaque != nil && o.opaque(h, inner) {
 						ev := Event{Kind: "call", Callee: core.CalleeName(cc), Instr: in, Locked: locked > 0}
 						for _, a := range cc.Args {
@@ -238,6 +302,9 @@ func InlinedPaths(p *core.Prog, f *ssa.Function, o inlineOpts) []IPath {
 								}
 								if e.Val != nil {
 									e2.Val = applySubs(liftWithEnv(rp.Env, e.Val, x), subs[i])
+								}
+								if e.Addr != nil {
+									e2.Addr = applySubs(liftWithEnv(rp.Env, e.Addr, x), subs[i])
 								}
 								e2.Locked = e.Locked || locked > 0
 								np.Events = append(np.Events, e2)
